@@ -108,15 +108,15 @@ def build_line(rng, S, shape, defx, defy, xs, ys, flat, qx, qy, ext):
 
 def generate(rng, tier):
     cases = []
-    nq = 400 if tier == "quick" else 10000
-    nf = 250 if tier == "quick" else 5000
+    nq = gen.N(tier, 400, 10000)
+    nf = gen.N(tier, 250, 5000)
     for S, cnt in (("Q", nq), ("F", nf)):
         for _ in range(cnt):
             shape, defx, defy, xs, ys, flat = gen_grid(rng, S)
             qx, qy = queries2(rng, xs, ys, rng.randint(2, 8), S)
             cases.append(build_line(rng, S, shape, defx, defy, xs, ys, flat, qx, qy, False))
     # i64 elements: judged by the model correspondence only (integer division is not the real-number statement)
-    for _ in range(50 if tier == "quick" else 1200):
+    for _ in range(gen.N(tier, 50, 1200)):
         nx, ny = rng.choice([2, 3, 4, 7]), rng.choice([2, 3, 5])
         shape = [nx, ny] + gen.trailing_shape(rng, 1)
         xs = gen.axis_i(rng, nx, rng.choice(["unit", "uniform", "random", "gappy", "small"]))
@@ -174,7 +174,7 @@ def oracle(case, res, ext=False):
 def extra(rng, tier):
     """transposition: data^T with swapped axes and coordinates gives exactly the same values at Q"""
     pairs = []
-    for _ in range(60 if tier == "quick" else 1500):
+    for _ in range(gen.N(tier, 60, 1500)):
         shape, defx, defy, xs, ys, flat = gen_grid(rng, "Q")
         nx, ny = shape[0], shape[1]
         L = gen.lanes_of(shape, 2)
